@@ -45,6 +45,8 @@ def write_side(ctx, rng, k):
     except Exception as e:  # noqa
         ctx.fail(f'2D conversion failed: {type(e).__name__}: {str(e)[:120]}', desc)
         return
+    from . import c03 as _c03
+    _c03.container_correspondence(ctx, out, desc, '2D converter output')   # K: Model/Header make/parse on the 2D header
     for p in spec.conformance_problems(out):
         ctx.fail('2D file not conformant: ' + p, desc)
     h, _ = spec.read_header(out)
@@ -84,10 +86,12 @@ def segy_hyp(src):
 
 def run(ctx):
     rng = gen.rng_for(ctx.seed, 'c09')
-    for k in range(40 if ctx.quick else 1000):
-        write_side(ctx, rng, k)
     model = core.Model()
+    from . import c03 as _c03
+    _c03.MODEL['m'] = model
     try:
+        for k in range(40 if ctx.quick else 1000):
+            write_side(ctx, rng, k)
         # K: 2D producer placement + hash feed under the symbolic compressor vs Model/Writer (cells2d, hashFeed2d)
         for k in range(30 if ctx.quick else 600):
             n, bs, q = gen.geometry_2d(rng, max_voxels=40_000)
